@@ -3194,7 +3194,10 @@ pub fn matrix_column_elements(&mut self, column_elements: &[&MatrixColumn]) -> S
         // the exponent has a fractional part only if one was written: "1.5e3" must not become "1.5e+3."
         let epart = epart.to_string();
         let efrac = if epart.is_empty() { "".to_string() } else { format!(".{}", epart) };
-        format!("{}.{}e{}{}{}", whole.to_string(), part.to_string(), if *sign { "-" } else { "+" }, ewhole.to_string(), efrac)
+        // likewise the mantissa: "1e3" must not become "1.e+3"
+        let part = part.to_string();
+        let frac = if part.is_empty() { "".to_string() } else { format!(".{}", part) };
+        format!("{}{}e{}{}{}", whole.to_string(), frac, if *sign { "-" } else { "+" }, ewhole.to_string(), efrac)
       },
       RealNumber::Rational((numerator, denominator)) => format!("{}/{}", numerator.to_string(), denominator.to_string()),
       RealNumber::TypedInteger((token, kind_annotation)) => {
